@@ -108,21 +108,21 @@ func (w *relayWalker) valStr(e ast.Expr) string {
 	return s
 }
 
-func selName(e ast.Expr) string {
+func relaySelName(e ast.Expr) string {
 	if s, ok := e.(*ast.SelectorExpr); ok {
 		return s.Sel.Name
 	}
 	return ""
 }
 
-func splitAnd(e ast.Expr) []ast.Expr {
+func relaySplitAnd(e ast.Expr) []ast.Expr {
 	if b, ok := e.(*ast.BinaryExpr); ok && b.Op == token.LAND {
-		return append(splitAnd(b.X), splitAnd(b.Y)...)
+		return append(relaySplitAnd(b.X), relaySplitAnd(b.Y)...)
 	}
 	return []ast.Expr{e}
 }
 
-func containsCall(n ast.Node, name string) bool {
+func relayContainsCall(n ast.Node, name string) bool {
 	found := false
 	ast.Inspect(n, func(m ast.Node) bool {
 		if c, ok := m.(*ast.CallExpr); ok {
@@ -135,7 +135,7 @@ func containsCall(n ast.Node, name string) bool {
 	return found
 }
 
-func containsString(n ast.Node, lit string) bool {
+func relayContainsString(n ast.Node, lit string) bool {
 	found := false
 	ast.Inspect(n, func(m ast.Node) bool {
 		if b, ok := m.(*ast.BasicLit); ok && b.Kind == token.STRING && b.Value == strconv.Quote(lit) {
@@ -153,7 +153,7 @@ func (w *relayWalker) ifStmt(s *ast.IfStmt) {
 		if c, ok := as.Rhs[0].(*ast.CallExpr); ok {
 			if id, ok := c.Fun.(*ast.Ident); ok && id.Name == "recover" && len(c.Args) == 0 {
 				w.emit("recover")
-				for _, c := range splitAnd(s.Cond) {
+				for _, c := range relaySplitAnd(s.Cond) {
 					w.emit("cond:%s", relayExprStr(c))
 				}
 				w.block(s.Body.List)
@@ -166,13 +166,13 @@ func (w *relayWalker) ifStmt(s *ast.IfStmt) {
 	if s.Init != nil {
 		w.stmt(s.Init)
 	}
-	if c, ok := s.Cond.(*ast.CallExpr); ok && selName(c.Fun) == "Enabled" && len(c.Args) == 1 {
+	if c, ok := s.Cond.(*ast.CallExpr); ok && relaySelName(c.Fun) == "Enabled" && len(c.Args) == 1 {
 		if v, ok := w.intOf(c.Args[0]); ok {
 			w.emit("guard:Enabled:%d", v)
 		} else {
 			w.emit("guard:Enabled:%s", relayExprStr(c.Args[0]))
 		}
-	} else if b, ok := s.Cond.(*ast.BinaryExpr); ok && b.Op == token.EQL && selName(b.X) == "Status" {
+	} else if b, ok := s.Cond.(*ast.BinaryExpr); ok && b.Op == token.EQL && relaySelName(b.X) == "Status" {
 		w.emit("if:Status==%s", w.valStr(b.Y))
 	} else {
 		w.emit("if:%s", relayExprStr(s.Cond))
@@ -196,7 +196,7 @@ func (w *relayWalker) elseOf(s *ast.IfStmt) {
 func (w *relayWalker) call(c *ast.CallExpr) {
 	fun := relayExprStr(c.Fun)
 	switch {
-	case selName(c.Fun) == "Handle" && len(c.Args) == 2:
+	case relaySelName(c.Fun) == "Handle" && len(c.Args) == 2:
 		tag := ""
 		for _, a := range w.recAttrs {
 			if strings.HasPrefix(a, "tag=") {
@@ -206,7 +206,7 @@ func (w *relayWalker) call(c *ast.CallExpr) {
 		w.emit("log:%s:%s", w.recLevel, tag)
 		w.logAttrs = append(w.logAttrs, w.recAttrs)
 		w.recLevel, w.recAttrs = "", nil
-	case selName(c.Fun) == "AddAttrs":
+	case relaySelName(c.Fun) == "AddAttrs":
 		for _, a := range c.Args {
 			ac, ok := a.(*ast.CallExpr)
 			if !ok || len(ac.Args) != 2 {
@@ -235,7 +235,7 @@ func (w *relayWalker) call(c *ast.CallExpr) {
 		w.emit("origin.WriteHeader:%s", w.valStr(c.Args[0]))
 	case strings.HasSuffix(fun, ".Origin.Write"):
 		w.emit("origin.Write")
-	case selName(c.Fun) == "WriteHeader" && len(c.Args) == 1:
+	case relaySelName(c.Fun) == "WriteHeader" && len(c.Args) == 1:
 		w.emit("WriteHeader:%s", w.valStr(c.Args[0]))
 	default:
 		w.emit("call:%s", fun)
@@ -247,7 +247,7 @@ func (w *relayWalker) stmt(s ast.Stmt) {
 	case *ast.IfStmt:
 		w.ifStmt(x)
 	case *ast.AssignStmt:
-		if len(x.Lhs) == 1 && selName(x.Lhs[0]) == "Status" && len(x.Rhs) == 1 {
+		if len(x.Lhs) == 1 && relaySelName(x.Lhs[0]) == "Status" && len(x.Rhs) == 1 {
 			w.emit("set:Status=%s", w.valStr(x.Rhs[0]))
 			return
 		}
@@ -256,7 +256,7 @@ func (w *relayWalker) stmt(s ast.Stmt) {
 			if c, ok := r.(*ast.CallExpr); ok {
 				if relayExprStr(c.Fun) == "slog.NewRecord" && len(c.Args) == 4 {
 					w.recLevel, w.recAttrs = w.valStr(c.Args[1]), nil
-				} else if containsCall(c, "recover") {
+				} else if relayContainsCall(c, "recover") {
 					w.emit("recover-outside-if")
 				} else if relayExprStr(c.Fun) == "store.I.HandlerFunc" {
 					w.emit("callHandler")
@@ -283,9 +283,9 @@ func (w *relayWalker) stmt(s ast.Stmt) {
 		}
 		kind := "other"
 		switch {
-		case containsCall(fl.Body, "recover"):
+		case relayContainsCall(fl.Body, "recover"):
 			kind = "recover"
-		case containsString(fl.Body, "REQ_END"):
+		case relayContainsString(fl.Body, "REQ_END"):
 			kind = "end"
 		}
 		if _, dup := w.deferred[kind]; dup {
@@ -317,15 +317,15 @@ func relayLeanStrList(l []string) string {
 	return "[" + strings.Join(q, ", ") + "]"
 }
 
-func leanOptPair(ok bool, a, b int64) string {
+func relayLeanOptPair(ok bool, a, b int64) string {
 	if !ok {
 		return "none"
 	}
 	return fmt.Sprintf("some (%d, %d)", a, b)
 }
 
-// enclosing returns the if/guard events that are open at position i of the event list.
-func enclosing(ev []string, i int) []string {
+// relayEnclosing returns the if/guard events that are open at position i of the event list.
+func relayEnclosing(ev []string, i int) []string {
 	var st []string
 	for j := 0; j < i; j++ {
 		e := ev[j]
@@ -345,7 +345,7 @@ func enclosing(ev []string, i int) []string {
 	return st
 }
 
-func indexPrefix(ev []string, prefix string) int {
+func relayIndexPrefix(ev []string, prefix string) int {
 	for i, e := range ev {
 		if strings.HasPrefix(e, prefix) {
 			return i
@@ -354,7 +354,7 @@ func indexPrefix(ev []string, prefix string) int {
 	return -1
 }
 
-func atoiSuffix(s, prefix string) (int64, bool) {
+func relayAtoiSuffix(s, prefix string) (int64, bool) {
 	if !strings.HasPrefix(s, prefix) {
 		return 0, false
 	}
@@ -362,21 +362,21 @@ func atoiSuffix(s, prefix string) (int64, bool) {
 	return v, err == nil
 }
 
-// guardLevel: the level of the innermost Enabled guard around event i (ok=false when unguarded).
-func guardLevel(ev []string, i int) (int64, bool) {
-	enc := enclosing(ev, i)
+// relayGuardLevel: the level of the innermost Enabled guard around event i (ok=false when unguarded).
+func relayGuardLevel(ev []string, i int) (int64, bool) {
+	enc := relayEnclosing(ev, i)
 	for k := len(enc) - 1; k >= 0; k-- {
-		if v, ok := atoiSuffix(enc[k], "guard:Enabled:"); ok {
+		if v, ok := relayAtoiSuffix(enc[k], "guard:Enabled:"); ok {
 			return v, true
 		}
 	}
 	return 0, false
 }
 
-func statusGuard(ev []string, i int) (int64, bool) {
-	enc := enclosing(ev, i)
+func relayStatusGuard(ev []string, i int) (int64, bool) {
+	enc := relayEnclosing(ev, i)
 	for k := len(enc) - 1; k >= 0; k-- {
-		if v, ok := atoiSuffix(enc[k], "if:Status=="); ok {
+		if v, ok := relayAtoiSuffix(enc[k], "if:Status=="); ok {
 			return v, true
 		}
 	}
@@ -421,7 +421,7 @@ func extractRelay() {
 		// recover() only stops a panic when the deferred function itself calls it
 		for _, s := range fl.Body.List {
 			ast.Inspect(s, func(n ast.Node) bool {
-				if inner, ok := n.(*ast.FuncLit); ok && containsCall(inner, "recover") {
+				if inner, ok := n.(*ast.FuncLit); ok && relayContainsCall(inner, "recover") {
 					recEv = append(recEv, "recover-in-nested-func")
 				}
 				return true
@@ -440,7 +440,7 @@ func extractRelay() {
 		case e == "defer:recover":
 			order = append(order, "deferRecover")
 		case e == "callHandler":
-			if len(enclosing(body, i)) > 0 {
+			if len(relayEnclosing(body, i)) > 0 {
 				order = append(order, "callHandler-conditional")
 			} else {
 				order = append(order, "callHandler")
@@ -476,18 +476,18 @@ func extractRelay() {
 
 	// parameters
 	begLevel, begGuarded := int64(0), false
-	if i := indexPrefix(body, "log:"); i >= 0 && strings.HasSuffix(body[i], ":REQ_BEG") {
-		begLevel, begGuarded = guardLevel(body, i)
+	if i := relayIndexPrefix(body, "log:"); i >= 0 && strings.HasSuffix(body[i], ":REQ_BEG") {
+		begLevel, begGuarded = relayGuardLevel(body, i)
 	}
 	endLevel, endGuarded := int64(0), false
 	endLogsStatus := false
 	endDefA, endDefB, endDef := int64(0), int64(0), false
-	if i := indexPrefix(endEv, "log:"); i >= 0 {
-		endLevel, endGuarded = guardLevel(endEv, i)
+	if i := relayIndexPrefix(endEv, "log:"); i >= 0 {
+		endLevel, endGuarded = relayGuardLevel(endEv, i)
 		endLogsStatus = strings.HasSuffix(endEv[i], ":REQ_END") && has(firstAttrs(endW), "code=Status")
-		if j := indexPrefix(endEv, "set:Status="); j >= 0 && j < i {
-			if b, ok := atoiSuffix(endEv[j], "set:Status="); ok {
-				if a, ok := statusGuard(endEv, j); ok {
+		if j := relayIndexPrefix(endEv, "set:Status="); j >= 0 && j < i {
+			if b, ok := relayAtoiSuffix(endEv[j], "set:Status="); ok {
+				if a, ok := relayStatusGuard(endEv, j); ok {
 					endDefA, endDefB, endDef = a, b, true
 				}
 			}
@@ -495,15 +495,15 @@ func extractRelay() {
 	}
 	errLevel, errGuarded := int64(0), false
 	errHasValueAndID := false
-	if i := indexPrefix(recEv, "log:"); i >= 0 {
-		errLevel, errGuarded = guardLevel(recEv, i)
+	if i := relayIndexPrefix(recEv, "log:"); i >= 0 {
+		errLevel, errGuarded = relayGuardLevel(recEv, i)
 		errHasValueAndID = has(firstAttrs(recW), "panic=err") && has(firstAttrs(recW), "tid=store.GetID()")
 	}
 	code500, has500 := int64(0), false
 	g500, guarded500 := int64(0), false
-	if i := indexPrefix(recEv, "httpError:"); i >= 0 {
-		code500, has500 = atoiSuffix(recEv[i], "httpError:")
-		g500, guarded500 = statusGuard(recEv, i)
+	if i := relayIndexPrefix(recEv, "httpError:"); i >= 0 {
+		code500, has500 = relayAtoiSuffix(recEv[i], "httpError:")
+		g500, guarded500 = relayStatusGuard(recEv, i)
 	}
 	lvl := func(v int64, ok bool) string {
 		if !ok {
@@ -516,7 +516,7 @@ func extractRelay() {
 	l.printf("def relayEndLevel : Option Nat := %s\n", lvl(endLevel, endGuarded))
 	l.printf("def relayErrLevel : Option Nat := %s\n", lvl(errLevel, errGuarded))
 	l.printf("/-- REQ_END: `if Status == a { Status = b }` before the record, which logs `code = Status` -/\n")
-	l.printf("def relayEndDefault : Option (Nat × Nat) := %s\n", leanOptPair(endDef, endDefA, endDefB))
+	l.printf("def relayEndDefault : Option (Nat × Nat) := %s\n", relayLeanOptPair(endDef, endDefA, endDefB))
 	l.printf("def relayEndLogsStatus : Bool := %v\n", endLogsStatus)
 	l.printf("/-- recover: `err != nil && err != http.ErrAbortHandler` -/\n")
 	l.printf("def relayRecovers : Bool := %v\n", has(recEv, "recover"))
@@ -540,18 +540,18 @@ func extractRelay() {
 	l.printf("def storeWriteEvents : List String := %s\n", relayLeanStrList(wEv))
 	l.printf("def storeWriteHeaderEvents : List String := %s\n", relayLeanStrList(whEv))
 	impA, impB, imp := int64(0), int64(0), false
-	if i := indexPrefix(wEv, "WriteHeader:"); i >= 0 {
-		if b, ok := atoiSuffix(wEv[i], "WriteHeader:"); ok {
-			if a, ok := statusGuard(wEv, i); ok {
-				if j := indexPrefix(wEv, "origin.Write"); j > i {
+	if i := relayIndexPrefix(wEv, "WriteHeader:"); i >= 0 {
+		if b, ok := relayAtoiSuffix(wEv[i], "WriteHeader:"); ok {
+			if a, ok := relayStatusGuard(wEv, i); ok {
+				if j := relayIndexPrefix(wEv, "origin.Write"); j > i {
 					impA, impB, imp = a, b, true
 				}
 			}
 		}
 	}
 	l.printf("/-- `Write`: `if Status == a { WriteHeader(b) }` before `Origin.Write` -/\n")
-	l.printf("def storeWriteImplicit : Option (Nat × Nat) := %s\n", leanOptPair(imp, impA, impB))
-	records := indexPrefix(whEv, "set:Status=code") >= 0 && indexPrefix(whEv, "origin.WriteHeader:code") >= 0
+	l.printf("def storeWriteImplicit : Option (Nat × Nat) := %s\n", relayLeanOptPair(imp, impA, impB))
+	records := relayIndexPrefix(whEv, "set:Status=code") >= 0 && relayIndexPrefix(whEv, "origin.WriteHeader:code") >= 0
 	l.printf("/-- `WriteHeader(code)`: forwards to the origin and records `Status = code` -/\n")
 	l.printf("def storeWriteHeaderRecords : Bool := %v\n", records)
 	l.write()
